@@ -65,9 +65,9 @@ def cases(draw):
         S.add_special_methods(draw, prog)       # accessors, constructors, stringifiers, comparators, indexers, iterators
     if bset == ["c", "cpp"] and draw(st.integers(0, 2)) == 0:
         # bridged traits (accepted by the C backend only; cpp rejects the program and is skipped): one or two of them
-        S.add_trait(draw, prog, "DvTrait")
+        S.add_trait(draw, prog, "DvTrait", options=True)
         if draw(st.booleans()):
-            S.add_trait(draw, prog, "DvOtherTrait")
+            S.add_trait(draw, prog, "DvOtherTrait", options=True)
     placed = []
     if draw(st.booleans()):
         placed = draw(S.decorate(prog, disable=False, namespace=True))
